@@ -100,6 +100,25 @@ theorem local_near_ref_surface (m : Msg) (latRef lonRef : ℚ) :
   · rw [withRef_eq] at h; split_ifs at h
   · exact absurd h (withRef_ne_panic 90 m latRef lonRef s)
 
+/-- In exact arithmetic the two "not more than half a cell away" checks of the code can never fire:
+    `floor(1/2 + ref/d − cpr)` always selects a lattice point within half a zone of the reference.  (They guard
+    against floating-point rounding only; a mutant that removes them is equivalent on ℚ, one that turns `>`
+    into `>=` differs on exact ties only.)  Hence the only refusal is a latitude outside [-90, 90]. -/
+theorem half_cell_checks_never_fire (full : ℚ) (hf : 0 < full) (m : Msg) (latRef lonRef : ℚ) :
+    |latOf full m latRef - latRef| ≤ dLatOf full m / 2 ∧
+    |lonOf full m (latOf full m latRef) lonRef - lonRef| ≤ dLonOf full m (latOf full m latRef) / 2 ∧
+    (withRef full m latRef lonRef = .ok none ↔ inLatRange (latOf full m latRef) = false) := by
+  have h1 : |latOf full m latRef - latRef| ≤ dLatOf full m / 2 :=
+    local_near _ (dLatOf_pos full hf m) _ _
+  have h2 : |lonOf full m (latOf full m latRef) lonRef - lonRef| ≤ dLonOf full m (latOf full m latRef) / 2 :=
+    local_near _ (dLonOf_pos full hf m _) _ _
+  refine ⟨h1, h2, ?_⟩
+  rw [withRef_eq]
+  by_cases hr : inLatRange (latOf full m latRef) = false
+  · simp [hr]
+  · rw [if_neg hr, if_neg (not_lt.mpr h1), if_neg (not_lt.mpr h2)]
+    simp [hr]
+
 /-- **`ni > 0` guard / no underflow**: `nl ≥ 1`, so the checked `u64` subtraction `nl(lat) − 1` never
     underflows, the divisor of `360 / ni` (resp. `90 / ni`) is never zero (`max(nl − i, 1) ≥ 1`), and neither
     function ever panics — for arbitrary field values and references. -/
